@@ -33,6 +33,9 @@ VARIANTS = [
     dict(name='simple-controls', leaks=False, controls=True, rules=False, quality=False, vertices=False),
     dict(name='clock-noon-midnight', leaks=False, controls=True, rules=True, quality=False, vertices=False, clock_thresholds=(12 * 3600 + 45 * 60, 15 * 60)),
     dict(name='clock-midnight-noon', leaks=False, controls=True, rules=True, quality=False, vertices=False, clock_thresholds=(0, 12 * 3600)),
+    dict(name='mixing-lifo-fifo', leaks=False, controls=False, rules=False, quality=True, vertices=False, mixing={'T1': 'LIFO', 'T2': 'FIFO'}),
+    dict(name='mixing-mixed', leaks=False, controls=False, rules=False, quality=True, vertices=False, mixing={'T1': 'Mixed'}),
+    dict(name='special-values', leaks=False, controls=False, rules=False, quality=True, vertices=False, mixing={'T1': 'TwoComp'}, mixfrac={'T1': 0.0}, nowrap=['PAT2']),
     dict(name='or-of-and', leaks=False, controls=True, rules=True, quality=False, vertices=False, or_of_and=True),
 ]
 
